@@ -595,23 +595,24 @@ def _register_iter_generic():
         fn = src.get_def("CodeData.all_code_data")
         log = []
 
-        class Child:
-            def __init__(self, name):
-                self.name = name
+        class Child(CodeData):
+            """a real (frozen) CodeData whose own recursion is the induction hypothesis"""
 
-            def all_code_data(self):          # induction hypothesis: yields the child and its descendants
-                log.append(self.name)
-                yield ("subtree", self.name)
+            def all_code_data(self):
+                log.append(self.stacksize)
+                yield ("subtree", self.stacksize)
         ns = rewrite.compile_defs(code_data, [copy.deepcopy(fn)], {}, "CodeData.all_code_data")
         f = ns["all_code_data"]
+        # three different children that share name, file and first line (two lambdas on one line do)
+        kids = [Child(blocks=((Instruction("OP%d" % k, line_number=1),),), filename="f", first_line_number=1, name="<lambda>", stacksize=k) for k in (1, 2, 3)]
 
         class Parent:
             def __iter__(self):
-                return iter([Child("a"), Child("b"), Child("c")])
+                return iter(kids)
         p = Parent()
         got = list(f(p))
-        ctx.prove("all_code_data.self_first", z3.BoolVal(got and got[0] is p))
-        ctx.prove("all_code_data.then_the_subtree_of_every_child_in_order", z3.BoolVal(got[1:] == [("subtree", "a"), ("subtree", "b"), ("subtree", "c")] and log == ["a", "b", "c"]))
+        ctx.prove("all_code_data.self_first", z3.BoolVal(bool(got) and got[0] is p))
+        ctx.prove("all_code_data.then_the_subtree_of_every_child_in_order", z3.BoolVal(got[1:] == [("subtree", 1), ("subtree", 2), ("subtree", 3)] and log == [1, 2, 3]), detail=repr(got[1:]))
     harness("iter.all_code_data.inductive_step", props=["C14"], functions=["code_data.CodeData.all_code_data"], configs="any",
             assumes=["meta-step: structural induction over the nesting depth (the recursive call on a child is the hypothesis)"],
             notes="modular recursion: all_code_data yields the object itself first and then, for every child that iteration yields, that child's whole subtree")(h_all)
